@@ -48,6 +48,7 @@ type Run struct {
 	model *Model
 	deep  *Deep
 
+	chanMemo  []chanSite
 	entryMemo map[*Func]lockset
 	callSites map[*Func][]callSite
 	feasible  map[*Func][]Path
